@@ -11,6 +11,8 @@ import (
 	"github.com/emitter-io/emitter/internal/message"
 	"github.com/emitter-io/emitter/internal/service/cluster"
 	"github.com/emitter-io/emitter/internal/service/keygen"
+	"github.com/emitter-io/emitter/internal/service/presence"
+	"github.com/emitter-io/emitter/internal/service/survey"
 )
 
 func (s *Service) VerifAttach(c net.Conn)          { s.onAcceptConn(c) }
@@ -25,3 +27,6 @@ func (s *Service) VerifHTTPHandler() http.Handler { return s.http.Handler }
 func (s *Service) VerifSetContracts(p contract.Provider) { s.contracts = p }
 
 func (s *Service) VerifStorage() storage.Storage { return s.storage }
+
+func (s *Service) VerifPresence() *presence.Service { return s.presence }
+func (s *Service) VerifSurveyor() *survey.Surveyor  { return s.surveyor }
